@@ -9,9 +9,10 @@ import Verif.Driver.Cognates
 import Verif.Driver.GainLoss
 import Verif.Driver.TreeBuild
 import Verif.Driver.MSA
+import Verif.Driver.Cell
 open Verif.Driver
 
-def handlers : List (List (List String) → Option String) := [handleAlign, handleSC, handleCluster, handleTree, handleHeap, handleCache, handleWL, handleCog, handleGL, handleTB, handleMSA]
+def handlers : List (List (List String) → Option String) := [handleAlign, handleSC, handleCluster, handleTree, handleHeap, handleCache, handleWL, handleCog, handleGL, handleTB, handleMSA, handleCell]
 
 def dispatch (line : String) : String :=
   let fs := fields line
